@@ -74,6 +74,11 @@ def make_scheduler(name, mode, seed, cs_kind="mixed", max_t=27, extra=None):
                                             sample_size=extra.get("sample_size", 3), points_to_evaluate=[])
             return FIFOScheduler(cs, searcher=searcher, metric=METRIC, mode=mode, random_seed=seed)
         so = {"debug_log": False}
+        if s == "random-rc":
+            # random search restricted to a list of configurations; `extra["restrict"]` is the caller's list object
+            # (twins "created with the same arguments" receive the very same list)
+            s = "random"
+            so["restrict_configurations"] = extra["restrict"]
         return FIFOScheduler(cs, searcher=s, metric=METRIC, mode=mode, random_seed=seed, search_options=so)
     if name.startswith("hb-"):
         from syne_tune.optimizer.schedulers.hyperband import HyperbandScheduler
